@@ -106,6 +106,8 @@ func (lrw *limitedResponseWriter) Hijack() (net.Conn, *bufio.ReadWriter, error) 
 
 // Support http.Flusher if underlying supports it
 func (lrw *limitedResponseWriter) Flush() {
+	// Flushing commits the header: send the recorded status, not an implicit 200
+	lrw.ensureHeaderWritten()
 	if f, ok := lrw.ResponseWriter.(http.Flusher); ok {
 		f.Flush()
 	}
@@ -182,6 +184,12 @@ func newSizeLimitMiddleware(name string, cfg map[string]interface{}) (Middleware
 
 			// Call next handler with the limited response writer
 			next.ServeHTTP(lrw, r)
+
+			// A handler that set a status but wrote no body (204, 304, redirects,
+			// empty errors) still has its recorded status pending
+			if !lrw.wroteHeader && lrw.statusCode != 0 {
+				lrw.ensureHeaderWritten()
+			}
 		})
 	}, nil
 }
